@@ -170,10 +170,18 @@ def discharge_quick(ob: Obligation) -> str | None:
     return smt2_of(s)
 
 
-def finish_pending(task: tuple[str, str, str]) -> dict:
+def finish_pending_slow(task: tuple[str, str, str]) -> dict:
+    """Third pass, only for obligations both solvers gave up on within the normal budget (a loaded machine makes the
+    wall-clock limits bite): same queries, budgets x8, few processes.  Still `unknown` afterwards = undecided, never a violation."""
+    return finish_pending(task, scale=8)
+
+
+def finish_pending(task: tuple[str, str, str], scale: int = 1) -> dict:
     """Second pass (one process per obligation): cvc5 on the dump, then z3 with the full budget."""
     ident, text, quick_detail = task
     t0 = time.time()
+    CVC5_TLIMIT_MS = globals()["CVC5_TLIMIT_MS"] * scale
+    Z3_RLIMIT = globals()["Z3_RLIMIT"] * scale
     text_c = re.sub(r"(?<![\w!.|])sep(?![\w!.|])", "sep_", text).replace("seq.nth_i", "seq.nth").replace("seq.nth_u", "seq.nth")
     with tempfile.NamedTemporaryFile("w", suffix=".smt2", delete=False) as fh:
         fh.write(text_c)
@@ -190,7 +198,7 @@ def finish_pending(task: tuple[str, str, str]) -> dict:
         return {"id": ident, "status": "discharged", "backend": "cvc5", "time_s": time.time() - t0, "detail": ""}
     s = z3.Solver()
     s.set("rlimit", Z3_RLIMIT)
-    s.set("timeout", 30000)
+    s.set("timeout", 30000 * scale)
     s.from_string(text)
     r = s.check()
     if r == z3.sat and not model_validates(s):
